@@ -772,7 +772,7 @@ func (e *env) ibc(out *hx.Out, sc string, core bool) {
 		ctx, _ = parent.CacheContext()
 		successAck := channeltypes.CommitAcknowledgement(channeltypes.NewResultAcknowledgement([]byte{byte(1)}).Acknowledgement())
 		var ackHash []byte
-		ackOK := false
+		ackOK, ackNone := false, false
 		if core {
 			// the counterparty end committed the packet; core verifies that commitment through the localhost client
 			s.App.IBCKeeper.ChannelKeeper.SetPacketCommitment(ctx, port, srcCh, seq, channeltypes.CommitPacket(s.App.AppCodec(), packet))
@@ -789,10 +789,9 @@ func (e *env) ibc(out *hx.Out, sc string, core bool) {
 			var found bool
 			ackHash, found = s.App.IBCKeeper.ChannelKeeper.GetPacketAcknowledgement(ctx, port, ch, seq)
 			if !found {
-				out.Violate("ibc-recv: core RecvPacket wrote no acknowledgement (" + sc + ")")
-				return
+				ackNone, ackHash = true, nil // the callback handed back no acknowledgement (asynchronous): core committed its branch
 			}
-			ackOK = string(ackHash) == string(successAck)
+			ackOK = found && string(ackHash) == string(successAck)
 			// designated: replay protection receipt + the acknowledgement
 			s.App.IBCKeeper.ChannelKeeper.SetPacketReceipt(bctx, port, ch, seq)
 		} else {
@@ -806,13 +805,19 @@ func (e *env) ibc(out *hx.Out, sc string, core bool) {
 			if ack == nil || ack.Success() {
 				write()
 			}
-			ackOK = ack.Success()
-			ackHash = channeltypes.CommitAcknowledgement(ack.Acknowledgement())
-			s.App.IBCKeeper.ChannelKeeper.SetPacketAcknowledgement(ctx, port, ch, seq, ackHash)
+			if ack == nil {
+				ackNone = true // asynchronous acknowledgement: nothing is written now
+			} else {
+				ackOK = ack.Success()
+				ackHash = channeltypes.CommitAcknowledgement(ack.Acknowledgement())
+				s.App.IBCKeeper.ChannelKeeper.SetPacketAcknowledgement(ctx, port, ch, seq, ackHash)
+			}
 		}
 		after := dumpKV(ctx, e.keys)
 		ctx = ctx.WithConsensusParams(origCp)
-		s.App.IBCKeeper.ChannelKeeper.SetPacketAcknowledgement(bctx, port, ch, seq, ackHash)
+		if !ackNone {
+			s.App.IBCKeeper.ChannelKeeper.SetPacketAcknowledgement(bctx, port, ch, seq, ackHash)
+		}
 		designated := dumpKV(bctx, e.keys)
 		extra := diffKV(after, designated)
 		marks := []string{}
@@ -852,11 +857,25 @@ func (e *env) ibc(out *hx.Out, sc string, core bool) {
 			slotW = true
 		}
 		ackS := map[bool]string{true: "ok", false: "err"}[ackOK]
+		if ackNone {
+			ackS = "none"
+			out.Count("ibc:async-ack")
+		}
 		out.Emit(fmt.Sprintf("pibc %s %d %d %s %s %s", mApp, b01(mFx), b01(mEvm), mConv, mMemo, mCall),
 			fmt.Sprintf("flow=nil ack=%s recv=1 app=%d erc=%d slot=%d", ackS, b01(appW), b01(ercW), b01(slotW)))
 		out.Count("ibc:" + sc)
 		out.Count("ibc:core=" + fmt.Sprint(core))
 		out.Nontrivial(fmt.Sprintf("ibc|%s|core=%v", sc, core))
+		if ackNone {
+			// the fx transfer stack acknowledges synchronously (Props.C18.callback_never_returns_nil); a missing acknowledgement
+			// makes core COMMIT the callback's branch — after a failure that is exactly the partial state the property excludes
+			if expectFail {
+				out.Violate("ibc-recv: follow-up failed (" + sc + ") but NO acknowledgement was returned (asynchronous): core committed the branch of the failed sub-step, writes: " + joinOrDash(categories(extra, e.chain)))
+			} else {
+				out.Violate("ibc-recv: scenario " + sc + " succeeded but no acknowledgement was written (asynchronous acknowledgement from the fx transfer stack)")
+			}
+			return
+		}
 		if expectFail && ackOK {
 			out.Violate("ibc-recv: follow-up failed (" + sc + ") but a success acknowledgement was returned, writes committed: " + joinOrDash(categories(extra, e.chain)))
 		}
